@@ -1442,7 +1442,11 @@ func NewPointFromBytes(b []byte) (Point, error) {
 				return nil, fmt.Errorf("unable to unmarshal field %s: %s", string(iter.FieldKey()), err)
 			}
 		case String:
-			// Skip since this won't return an error
+			// StringValue cannot return an error, it strips the quotes off
+			// the value: make sure both of them are there.
+			if v := p.it.valueBuf; len(v) < 2 || v[len(v)-1] != '"' {
+				return nil, fmt.Errorf("unable to unmarshal field %s: unterminated string", string(iter.FieldKey()))
+			}
 		case Boolean:
 			_, err := iter.BooleanValue()
 			if err != nil {
